@@ -82,12 +82,16 @@ def g2eInsert (m : G2E) (k : Nat) (e : Edge) : G2E :=
 
 /-! ### Boundary -/
 
-/-- `Boundary::new` : every ridge (d,i,j), i ≠ j, is opposite to (d,j,i) with count 1 -/
-def boundaryNew (ds : DSymData) : OppMap :=
+/-- all ridges (d,i,j), i ≠ j, in the order of the triple loop of `Boundary::new` -/
+def ridges (ds : DSymData) : List Ridge :=
   (List.range ds.size).flatMap fun d0 =>
     (List.range (ds.dim + 1)).flatMap fun i =>
       (List.range (ds.dim + 1)).filterMap fun j =>
-        if i ≠ j then some ((d0 + 1, i, j), ((d0 + 1, j, i), 1)) else none
+        if i ≠ j then some (d0 + 1, i, j) else none
+
+/-- `Boundary::new` : every ridge (d,i,j), i ≠ j, is opposite to (d,j,i) with count 1 -/
+def boundaryNew (ds : DSymData) : OppMap :=
+  (ridges ds).map fun k => (k, ((k.1, k.2.2, k.2.1), 1))
 
 /-- body of the `for j` loop of `glue` -/
 def glueStep (ds : DSymData) (d i di : Nat) (acc : Outcome (OppMap × List Ridge)) (j : Nat) :
